@@ -251,34 +251,55 @@ def selected_fields(
     if field.selection_set is None:
         return []
 
-    _path = _path or []
-    fieldnames = []
-
-    collected = collect_fields_untyped(
-        field.selection_set.selections, fragments, variables
-    )
-
     if isinstance(pattern, str):
         pattern = re.compile(fnmatch.translate(pattern))
 
-    for _, fields in collected.items():
+    return _selected_paths(
+        field.selection_set.selections,
+        fragments,
+        variables,
+        maxdepth,
+        pattern,
+        _path or [],
+    )
 
-        child_field = fields[0]
-        child_path = [*_path, child_field.name.value]
+
+def _selected_paths(
+    selections: Sequence[ast.Selection],
+    fragments: Mapping[str, ast.FragmentDefinition],
+    variables: Mapping[str, Any],
+    maxdepth: Optional[int],
+    pattern: Optional[Pattern],
+    path: List[str],
+) -> List[str]:
+    fieldnames = []
+
+    collected = collect_fields_untyped(selections, fragments, variables)
+
+    for fields in collected.values():
+        child_path = [*path, fields[0].name.value]
         joined = "/".join(child_path)
 
         if pattern is None or pattern.match(joined):
             fieldnames.append(joined)
 
-        if (not maxdepth) or len(_path) < (maxdepth - 1):
+        if (not maxdepth) or len(path) < (maxdepth - 1):
+            # Fields sharing a response key are merged (as they are during
+            # execution) so all their sub-selections are traversed.
+            subselections = [
+                selection
+                for field in fields
+                if field.selection_set is not None
+                for selection in field.selection_set.selections
+            ]
             fieldnames.extend(
-                selected_fields(
-                    child_field,
-                    fragments=fragments,
-                    variables=variables,
-                    maxdepth=maxdepth,
-                    pattern=pattern,
-                    _path=child_path,
+                _selected_paths(
+                    subselections,
+                    fragments,
+                    variables,
+                    maxdepth,
+                    pattern,
+                    child_path,
                 )
             )
 
